@@ -552,7 +552,7 @@ class C16(core.Property):
         "CacheWarmer is handed a proxy whose get() is the real CachedStore.get wrapped to log its segments",
     ]
     assumptions = [
-        "read-after-write, write-through stores, is additionally judged with overlapping writes ordered (readOkOrd): a get may not return the value of a write w' when a write that completed before the get was issued was both issued after w' and completed after w' (the cache takes writes in issue order, the backing store in completion order); in write-back mode only the regular-register clause is judged — there an eviction's synchronous write-back can be overtaken by a delete issued earlier that is still in flight (fixes/C16-writeback-overtaken-by-delete.known.md, reproduced on /repo, not alarmed)",
+        "read-after-write is additionally judged with overlapping writes ordered (readOkOrd): a get may not return the value of a write w' when a write that completed before the get was issued was both issued after w' and completed after w' (the cache takes writes in issue order, the backing store in completion order); proved for write-through stores; the write-back store as it is violates it in one known way (an eviction's / invalidation's / flush's synchronous write-back overtaken by a delete issued earlier that is still in flight — signature store/read-after-write/superseded/wb/writeback-overtaken-by-earlier-delete, known finding fixes/C16-writeback-overtaken-by-delete.known.md, theorem read_after_write_ordered_writeback_false); any other write-back violation is reported under …/wb/value or …/wb/absent",
         "read-after-write is judged as a regular register over segment order: a get may return the value of any write to its key that is not entirely followed by another write which completed before the get was issued (a delete writes 'absent'); put values are unique per script",
         "lost-write is judged at quiescence against the backing store's contents, exempting keys still reported dirty",
         "soft-TTL age is judged black-box: the returned value must have been read from the backing store (seen by the user-supplied KVStore subclass) or written through the cache less than hard_ttl before the get was issued; the Lean theorem is about the entry's cached_at at the moment the serve decision is taken",
@@ -565,7 +565,7 @@ class C16(core.Property):
         "policy theorems: well-formed histories (on_insert only for a key that is not tracked — the protocol CachedStore._cache_put follows; proved at the store level)",
         "store theorems: capacity ≥ 1 (the constructor rejects less), policy made by Pol.ofName",
         "writeback_reaches_store, read_after_write_all_interleavings, read_after_write_sequential, soft_ttl_age_le_hard: repaired variant (fixes/C16-*.diff); soft_ttl ≤ hard_ttl (constructor)",
-        "read_after_write_ordered_all_interleavings: write-through, repaired variant, Schedule ops as, and lateOk [] as — no resume of an id before its start (a spurious earlier resume would move the judge's issue index of that operation; observed runs never contain one); write-back stores are outside this theorem (fixes/C16-writeback-overtaken-by-delete.known.md)",
+        "read_after_write_ordered_all_interleavings: write-through, repaired variant, Schedule ops as, and lateOk [] as — no resume of an id before its start (a spurious earlier resume would move the judge's issue index of that operation; observed runs never contain one); write-back stores: read_after_write_ordered_writeback_false (decided counterexample, the model being the code as it is)",
         "read_after_write_all_interleavings: Schedule ops as — operation ids unique, every first segment in the schedule is that of its table entry (a flush with any iteration order of the dirty set), no id started twice, put values pairwise distinct; resumes of ids with nothing pending are allowed anywhere (they are no-ops)",
     ]
     partial_theorems = {
@@ -1152,6 +1152,7 @@ THEOREMS = [
     "HappyModel.C16.read_after_write_overlap_witness",
     "HappyModel.C16.read_after_write_ordered_all_interleavings",
     "HappyModel.C16.read_after_write_ordered_witness",
+    "HappyModel.C16.read_after_write_ordered_writeback_false",
     "HappyModel.C16.read_after_write_sequential",
     "HappyModel.C16.read_after_write_refill_witness",
     "HappyModel.C16.writeback_reaches_store",
